@@ -335,7 +335,34 @@ def campaign(pid, configs, variant="os", max_trace_cases=4000, liveness=True):
             rnd = random.Random(seed())
             cases = rnd.sample(cases, c["limit"])
             cases.sort(key=lambda x: x["id"])
-        results, raw = replay(wd, c["name"], c["sb"], cases)
+        # in chunks: once a config has produced plenty of violations there is no point in paying the
+        # watchdog timeout of every further failing case
+        results, raw = [], os.path.join(wd, c["name"] + ".trace.ndjson")
+        raws = []
+        for off in range(0, len(cases), 150):
+            part, praw = replay(wd, "%s.%d" % (c["name"], off), c["sb"], cases[off:off + 150])
+            results += part
+            raws.append(praw)
+            bad = sum(1 for x in part if x.get("rres") in ("hang", "panic") or (x.get("sres") == "ok" and x.get("rres") != "ok"))
+            if bad > 20:
+                cases = cases[:off + 150]
+                break
+        with open(raw, "w") as f:
+            base = 0
+            for pr in raws:
+                if not os.path.exists(pr):
+                    continue
+                top = base
+                for line in open(pr):
+                    try:
+                        e = json.loads(line)
+                    except ValueError:
+                        continue
+                    e["g"] += base          # every chunk's process numbered its events from 0
+                    top = max(top, e["g"] + 1)
+                    f.write(json.dumps(e) + "\n")
+                base = top
+                os.remove(pr)
         by = {x["id"]: x for x in results}
         for case in cases:
             res = by.get(case["id"])
